@@ -60,10 +60,12 @@ def verdicts(path, **kw):
     """(nofail outcome, fail outcome): outcome = 'good' | 'bad' | 'raised:<type>'"""
     from amr_kitchen.taste import Taster
     out = []
+    # the verbosity is no part of the verdict: quiet, default and chatty runs must agree
+    vb = (0, 0, None, 1, 2, 3)[int(common.sha(path, sorted(kw.items()) if kw else ""), 16) % 6]
     for nofail in (True, False):
         pools.CTL.reset(mode="inproc", seed=3)
         try:
-            t = Taster(path, nofail=nofail, verbose=0, **kw)
+            t = Taster(path, nofail=nofail, verbose=vb, **kw)
             out.append("good" if bool(t) else "bad")
         except Exception as e:
             out.append("raised:" + type(e).__name__)
